@@ -441,8 +441,52 @@ class Interp:
         if not self.truth(self.eval(st.test, frame)):
             self.raise_exc('AssertionError', '', self.here(st, frame))
 
+    PURE_OPS = (ast.Add, ast.Sub, ast.Mult, ast.BitAnd, ast.BitOr, ast.BitXor, ast.LShift, ast.RShift)
+
+    def _pure_expr(self, e):
+        if isinstance(e, (ast.Name, ast.Constant)):
+            return not isinstance(e, ast.Constant) or isinstance(e.value, (int, bool))
+        if isinstance(e, ast.BinOp) and isinstance(e.op, self.PURE_OPS):
+            if isinstance(e.op, (ast.LShift, ast.RShift)) and not isinstance(e.right, ast.Constant):
+                return False
+            return self._pure_expr(e.left) and self._pure_expr(e.right)
+        if isinstance(e, ast.UnaryOp) and isinstance(e.op, (ast.USub, ast.UAdd)):
+            return self._pure_expr(e.operand)
+        return False
+
+    def _mergeable(self, stmts):
+        names = []
+        for s in stmts:
+            if isinstance(s, ast.Assign) and len(s.targets) == 1 and isinstance(s.targets[0], ast.Name) and self._pure_expr(s.value):
+                names.append(s.targets[0].id)
+            elif isinstance(s, ast.AugAssign) and isinstance(s.target, ast.Name) and isinstance(s.op, self.PURE_OPS) and self._pure_expr(s.value):
+                names.append(s.target.id)
+            else:
+                return None
+        return names
+
     def st_If(self, st, frame):
-        if self.truth(self.eval(st.test, frame)):
+        test = self.eval(st.test, frame)
+        if is_sym(test) and self.ctx is not None:
+            # if-conversion of side-effect-free integer updates: no path fork, the join is an ite term
+            n1 = self._mergeable(st.body)
+            n2 = self._mergeable(st.orelse)
+            if n1 is not None and n2 is not None and (n1 or n2):
+                names = set(n1) | set(n2)
+                if all(n in frame.locals and (is_sym(frame.locals[n]) and not sx.is_bv(frame.locals[n]) or isinstance(frame.locals[n], (int, bool))) for n in names):
+                    cond = z3.simplify(sx.to_bool(test))
+                    if not z3.is_true(cond) and not z3.is_false(cond):
+                        before = {n: frame.locals[n] for n in names}
+                        self.exec_block(st.body, frame)
+                        then_v = {n: frame.locals[n] for n in names}
+                        frame.locals.update(before)
+                        self.exec_block(st.orelse, frame)
+                        else_v = {n: frame.locals[n] for n in names}
+                        for n in names:
+                            a, b = then_v[n], else_v[n]
+                            frame.locals[n] = a if (a is b) else sx.If(cond, a, b)
+                        return
+        if self.truth(test):
             self.exec_block(st.body, frame)
         else:
             self.exec_block(st.orelse, frame)
@@ -568,10 +612,38 @@ class Interp:
             ctx.oblige('%s/decreases' % base, sx.And(dec0 >= 0, dec1 < dec0), {'kind': 'decreases'})
         raise PathEnd()
 
+    def loop_unrolled_with_cuts(self, st, frame, spec, ordinal):
+        """Concrete iteration count, but the loop state is cut at every iteration: after iteration k the invariant
+        (indexed by k) is proved, the modified variables are havocked and the invariant assumed.  One small VC per iteration
+        instead of one VC carrying the whole unrolled computation."""
+        fq = frame.func.qualname
+        base = '%s/loop%d' % (fq.split('.', 1)[1] if fq.startswith('pycdlib.') else fq, ordinal)
+        items = list(self.iterate(self.eval(st.iter, frame), st, frame))
+        frame.locals['__k'] = 0
+        for name, cl in spec.invariant(self, frame, 'init').items():
+            self.ctx.oblige('%s/loop-init:%s' % (base, name), cl, {'kind': 'loop-init'})
+        for k, v in enumerate(items):
+            self.assign(st.target, v, frame)
+            try:
+                self.exec_block(st.body, frame)
+            except ContinueSig:
+                pass
+            except BreakSig:
+                raise Unsupported('break inside a cut loop')
+            frame.locals['__k'] = k + 1
+            for name, cl in spec.invariant(self, frame, 'step').items():
+                self.ctx.oblige('%s/loop-step:%s' % (base, name), cl, {'kind': 'loop-step'})
+            spec.havoc(self, frame)
+            for name, cl in spec.invariant(self, frame, 'assume').items():
+                self.ctx.assume(cl)
+        self.exec_block(st.orelse, frame)
+
     def st_For(self, st, frame):
         ordinal = frame.loop_ordinal
         frame.loop_ordinal += 1
         spec = self.loop_specs.get((frame.func.qualname if frame.func else '', ordinal))
+        if spec is not None and getattr(spec, 'unrolled', False):
+            return self.loop_unrolled_with_cuts(st, frame, spec, ordinal)
         if spec is not None:
             return self.loop_with_spec(st, frame, spec, ordinal)
         it = self.iterate(self.eval(st.iter, frame), st, frame)
@@ -949,6 +1021,8 @@ class Interp:
             for x, y in ((a, b), (b, a)):
                 if not is_sym(y) and isinstance(y, int) and y >= 0 and (y & (y + 1)) == 0:
                     # mask 2^k-1: x & mask == x mod 2^k (floor) for every int x
+                    if is_sym(x) and self.ctx.entails(z3.And(x >= 0, x <= y)):
+                        return x  # the mask is a no-op on this range
                     return self.int_div(x, y + 1, node, frame)[1]
             for x, y in ((a, b), (b, a)):
                 if not is_sym(y) and isinstance(y, int) and y >= 0:
